@@ -18,6 +18,7 @@ import (
 	"github.com/practable/relay/internal/deny"
 	"github.com/practable/relay/internal/permission"
 	"github.com/practable/relay/internal/ttlcode"
+	"github.com/practable/relay/internal/verifhook"
 	log "github.com/sirupsen/logrus"
 )
 
@@ -252,8 +253,10 @@ func sessionHandler(config Config) func(operations.SessionParams, interface{}) m
 			m := "bookingID has been deny-listed, probably because the session was cancelled"
 			return operations.NewSessionBadRequest().WithPayload(&models.Error{Code: &c, Message: &m})
 		}
+		verifhook.Point("session.checked")
 		// track bookingIDs for which we have received connection requests
 		config.DenyStore.Allow(claims.BookingID, claims.ExpiresAt.Unix())
+		verifhook.Point("session.allowed")
 
 		// TODO - have the scopes been checked already?
 
@@ -270,6 +273,7 @@ func sessionHandler(config Config) func(operations.SessionParams, interface{}) m
 		pt.SetBookingID(claims.BookingID)
 
 		code := config.CodeStore.SubmitToken(pt)
+		verifhook.Point("session.minted")
 
 		log.Trace(fmt.Sprintf("submitting token of type %T", pt))
 
@@ -310,9 +314,12 @@ func denyHandler(config Config) func(operations.DenyParams, interface{}) middlew
 		}
 
 		config.DenyStore.Deny(params.Bid, params.Exp)
+		verifhook.Point("deny.listed")
 
 		config.CodeStore.DeleteByBookingID(params.Bid) //remove any tokens with the bookingID in them
+		verifhook.Point("deny.purged")
 		config.DenyChannel <- params.Bid               // alert crossbar we need to cancel some connections
+		verifhook.Point("deny.notified")
 
 		return operations.NewDenyNoContent()
 	}
@@ -349,6 +356,7 @@ func allowHandler(config Config) func(operations.AllowParams, interface{}) middl
 		}
 
 		config.DenyStore.Allow(params.Bid, params.Exp)
+		verifhook.Point("allow.done")
 
 		return operations.NewAllowNoContent()
 	}
